@@ -1,1 +1,261 @@
-fn main() { println!("inproc"); }
+//! deltasim-inproc: engine E2 (in-process simulation on delta's BufRead / Write seams).
+
+mod c10;
+mod c11;
+mod c18;
+mod sim;
+
+use delta::verif_hooks as dh;
+use serde_json::json;
+use simcore::evidence::Evidence;
+use simcore::report::*;
+use simcore::rng::verif_seed;
+use std::collections::{BTreeMap, BTreeSet};
+use std::sync::atomic::{AtomicUsize, Ordering};
+use std::sync::Mutex;
+use std::time::Instant;
+
+#[global_allocator]
+static ALLOC: sim::Counting = sim::Counting;
+
+pub fn workers() -> usize {
+    std::env::var("VERIF_JOBS").ok().and_then(|s| s.parse().ok()).unwrap_or_else(|| std::thread::available_parallelism().map(|n| n.get()).unwrap_or(4))
+}
+
+/// Parallel map, results in task order (independent of the worker count).
+pub fn par_map<R: Send>(n: usize, f: &(dyn Fn(usize) -> R + Sync)) -> Vec<R> {
+    let next = AtomicUsize::new(0);
+    let results: Mutex<Vec<Option<R>>> = Mutex::new((0..n).map(|_| None).collect());
+    std::thread::scope(|s| {
+        for _ in 0..workers().min(n.max(1)) {
+            s.spawn(|| loop {
+                let i = next.fetch_add(1, Ordering::Relaxed);
+                if i >= n {
+                    break;
+                }
+                let r = f(i);
+                results.lock().unwrap()[i] = Some(r);
+            });
+        }
+    });
+    results.into_inner().unwrap().into_iter().map(|x| x.unwrap()).collect()
+}
+
+fn quiet_panics() {
+    // delta panics are caught and counted; keep stderr readable
+    std::panic::set_hook(Box::new(|_| {}));
+}
+
+fn evidence_path(id: &str) -> String {
+    std::env::var("EVIDENCE_PART").unwrap_or_else(|_| format!("{}/evidence/{}.json", verif_root(), id))
+}
+
+// ---------------------------------------------------------------------------
+
+fn main_c11(tier: &str, seed: u64, replay: Option<&str>) -> i32 {
+    let t0 = Instant::now();
+    if let Some(path) = replay {
+        let v: serde_json::Value = match std::fs::read_to_string(path).ok().and_then(|t| serde_json::from_str(&t).ok()) {
+            Some(v) => v,
+            None => {
+                eprintln!("cannot read {}", path);
+                return 2;
+            }
+        };
+        let oracle = v["oracle"].as_str().unwrap_or("").to_string();
+        if oracle == "M-memory" {
+            let args: Vec<String> = serde_json::from_value(v["mem_args"].clone()).unwrap_or_default();
+            let n = v["mem_n"].as_u64().unwrap_or(500) as usize;
+            let (viol, _) = c11::memory_check(&args, n, v["seed"].as_u64().unwrap_or(1));
+            return match viol {
+                Some(x) => {
+                    println!("VIOLATION property=C11 replay={}", path);
+                    println!("  oracle={} {}", x.oracle, x.message);
+                    1
+                }
+                None => {
+                    println!("replay {}: no violation", path);
+                    0
+                }
+            };
+        }
+        let case: c11::Case = serde_json::from_value(v["case"].clone()).unwrap();
+        let (vs, _) = c11::check_case(&case);
+        return match vs.iter().find(|x| x.oracle == oracle) {
+            Some(x) => {
+                println!("VIOLATION property=C11 replay={}", path);
+                println!("  oracle={} {}", x.oracle, x.message);
+                1
+            }
+            None => {
+                println!("replay {}: no violation of {} (property holds on this tree for this case)", path, oracle);
+                0
+            }
+        };
+    }
+    let n = if tier == "thorough" { 400_000 } else { 6_000 };
+    let results = par_map(n, &|i| {
+        let case = c11::gen_case(seed, i);
+        let (v, st) = c11::check_case(&case);
+        (v, st)
+    });
+    let mut counters: BTreeMap<String, u64> = BTreeMap::new();
+    let mut shapes: BTreeSet<String> = BTreeSet::new();
+    let mut first: Vec<(usize, Violation)> = Vec::new();
+    for (i, (v, st)) in results.iter().enumerate() {
+        c11::merge_stats(&mut counters, st);
+        shapes.insert(st.shape.clone());
+        if let Some(x) = v.first() {
+            first.push((i, x.clone()));
+        }
+    }
+    // memory oracle
+    let mem_n = if tier == "thorough" { 5000 } else { 400 };
+    let mem_cfgs: Vec<Vec<String>> = vec![
+        vec!["--no-gitconfig".into(), "--width".into(), "120".into()],
+        vec!["--no-gitconfig".into(), "--width".into(), "120".into(), "--side-by-side".into(), "--line-numbers".into()],
+        vec!["--no-gitconfig".into(), "--width".into(), "120".into(), "--syntax-theme".into(), "none".into(), "--line-buffer-size".into(), "2".into()],
+        vec!["--no-gitconfig".into(), "--width".into(), "120".into(), "--color-only".into()],
+    ];
+    let mem: Vec<(Option<Violation>, serde_json::Value)> = par_map(mem_cfgs.len(), &|i| c11::memory_check(&mem_cfgs[i], mem_n, seed));
+
+    let known = load_known();
+    let mut exit = 0;
+    let mut reported: BTreeSet<String> = BTreeSet::new();
+    let mut known_hit: BTreeMap<String, (String, u64)> = BTreeMap::new();
+    for (i, v) in &first {
+        if let Some(k) = known.matches("C11", v) {
+            known_hit.entry(k.signature.clone()).or_insert((k.what.clone(), 0)).1 += 1;
+            continue;
+        }
+        if reported.contains(&v.signature) || reported.len() >= 4 {
+            continue;
+        }
+        reported.insert(v.signature.clone());
+        // minimise: fewer lines, coarser schedule, no faults, fewer options — same oracle
+        let mut case = c11::gen_case(seed, *i);
+        let oracle = v.oracle.clone();
+        let fails = |c: &c11::Case| c11::check_case(c).0.iter().any(|x| x.oracle == oracle);
+        let mut budget = 300usize;
+        let lines = case.lines.clone();
+        let kept = simcore::text::ddmin(lines, &mut budget, &mut |ls: &[simcore::gen::GLine]| {
+            let mut c = case.clone();
+            c.lines = ls.to_vec();
+            fails(&c)
+        });
+        case.lines = kept;
+        for simpler in [vec![], vec![1usize]] {
+            let mut c = case.clone();
+            c.rschedule = simpler;
+            if budget > 0 && fails(&c) {
+                case = c;
+                break;
+            }
+        }
+        {
+            let mut c = case.clone();
+            c.wplan = vec![];
+            if fails(&c) {
+                case = c;
+            }
+        }
+        let mut k = 0;
+        while k < case.opts.args.len() && budget > 0 {
+            let a = case.opts.args[k].clone();
+            if !a.starts_with("--") || a == "--no-gitconfig" || a == "--width" || a == "--line-buffer-size" {
+                k += 1;
+                continue;
+            }
+            let takes = k + 1 < case.opts.args.len() && !case.opts.args[k + 1].starts_with("--");
+            let mut c = case.clone();
+            c.opts.args.remove(k);
+            if takes {
+                c.opts.args.remove(k);
+            }
+            budget -= 1;
+            if fails(&c) {
+                case = c;
+            } else {
+                k += 1;
+            }
+        }
+        let mv = c11::check_case(&case).0.into_iter().find(|x| x.oracle == oracle).unwrap_or_else(|| v.clone());
+        let path = write_replay("C11", &format!("{}-{}", v.oracle, reported.len()), &json!({"property": "C11", "engine": "E2-inproc", "seed": seed, "oracle": mv.oracle, "signature": mv.signature, "message": mv.message, "case": case, "input": String::from_utf8_lossy(&simcore::gen::to_bytes(&case.lines))}));
+        println!("VIOLATION property=C11 replay={}", path.display());
+        println!("  oracle={} {}", mv.oracle, mv.message);
+        exit = 1;
+    }
+    let mut mem_samples = Vec::new();
+    for (i, (v, info)) in mem.iter().enumerate() {
+        mem_samples.push(info.clone());
+        if let Some(x) = v {
+            if let Some(k) = known.matches("C11", x) {
+                known_hit.entry(k.signature.clone()).or_insert((k.what.clone(), 0)).1 += 1;
+                continue;
+            }
+            let path = write_replay("C11", &format!("M-memory-{}", i), &json!({"property": "C11", "engine": "E2-inproc", "seed": seed, "oracle": "M-memory", "signature": x.signature, "message": x.message, "mem_args": mem_cfgs[i], "mem_n": mem_n}));
+            println!("VIOLATION property=C11 replay={}", path.display());
+            println!("  oracle={} {}", x.oracle, x.message);
+            exit = 1;
+        }
+    }
+    for (sigk, (what, nn)) in &known_hit {
+        println!("KNOWN-FINDING: property=C11 {} [{}] ({} cases)", what, sigk, nn);
+    }
+    let mut ev = Evidence::new("C11", tier, seed, "exploration");
+    ev.evaluations = counters.get("delta_runs").copied().unwrap_or(0);
+    ev.distinct_nontrivial = results.iter().filter(|(_, st)| st.lag.in_hunk_points > 0).count() as u64;
+    ev.rule = "one evaluation = one in-process execution of delta::delta() on SimReader/SimWriter; a case = generated diff + options + delivery schedule + consumer plan, run (a) in one chunk, (b) one line per read (every line boundary is a pause point), (c) under the sampled schedule with EINTR/short writes, (d) on 3 sampled input prefixes followed by EOF. distinct_nontrivial = cases (distinct seeds) with at least one quiescence point inside a hunk, i.e. where oracle L had something to decide.".into();
+    ev.counters = counters;
+    ev.counters.insert("cases".into(), n as u64);
+    ev.counters.insert("distinct_mode_buffer_flavor_shapes".into(), shapes.len() as u64);
+    ev.violations = reported.len() as u64;
+    ev.samples = (0..3).map(|i| {
+        let c = c11::gen_case(seed, i * 7);
+        json!({"args": c.opts.args, "rschedule": c.rschedule, "wplan": c.wplan, "input_first_lines": c.lines.iter().take(12).map(|l| l.text.clone()).collect::<Vec<_>>()})
+    }).collect();
+    ev.extra.insert("memory_oracle".into(), json!(mem_samples));
+    ev.extra.insert("engine".into(), json!("E2-inproc: delta's sources linked as a library via a shadow manifest (cfg dandavison_delta_verif), delta::delta() driven through its BufRead and Write parameters"));
+    ev.extra.insert("real_vs_stub".into(), json!({"real": ["option parsing, Config::from, StateMachine::consume and everything below it"], "stub": ["reader (SimReader) and writer (SimWriter) are the simulator; calling process fixed to a launched `git diff`"]}));
+    ev.extra.insert("simulated_steps".into(), json!({"quiescence_points": ev.counters.get("quiescence_points_checked")}));
+    ev.assumptions = vec![
+        "bound of oracle L is per side: at most line-buffer-size+1 removed and line-buffer-size+1 added lines of the open run may be unwritten".into(),
+        "merge-conflict regions are excluded (held until their end marker by design)".into(),
+        "main.rs (stdin locking, pager pipe) is outside E2; the E1 part of this check covers it".into(),
+    ];
+    ev.wall_s = t0.elapsed().as_secs_f64();
+    if let Err(e) = ev.write(&evidence_path("C11")) {
+        eprintln!("HARNESS-ERROR: cannot write evidence: {}", e);
+        return 2;
+    }
+    // reach probes
+    for probe in ["quiescence_points_inside_hunk", "points_with_held_lines_exactly_at_bound", "points_in_run_longer_than_bound.minus", "points_in_run_longer_than_bound.plus", "fault_fired.read_eintr", "fault_fired.write_eintr", "fault_fired.short_write", "chunk_boundary_inside_utf8_sequence"] {
+        if ev.counters.get(probe).copied().unwrap_or(0) == 0 && exit == 0 {
+            eprintln!("HARNESS-ERROR: probe {} stuck at zero", probe);
+            exit = 2;
+        }
+    }
+    println!("C11 {} (E2): {} cases, {} delta runs, {} quiescence points checked ({} inside hunks), max held -{} +{}, {} violations, {:.1}s", tier, n, ev.evaluations, ev.counters["quiescence_points_checked"], ev.counters["quiescence_points_inside_hunk"], ev.counters["max_held_minus"], ev.counters["max_held_plus"], reported.len(), ev.wall_s);
+    exit
+}
+
+fn main() {
+    let args: Vec<String> = std::env::args().collect();
+    quiet_panics();
+    // The calling process is process-global and `calling_process()` blocks until it is known:
+    // publish a launched command once (what `delta git diff` does before creating its Config).
+    dh::set_calling_process(&["git".to_string(), "diff".to_string()]);
+    let tier = args.get(2).map(|s| s.as_str()).unwrap_or("quick").to_string();
+    let replay = args.iter().position(|a| a == "--replay").and_then(|i| args.get(i + 1)).cloned();
+    let seed = verif_seed();
+    let code = match args.get(1).map(|s| s.as_str()) {
+        Some("C11") => main_c11(&tier, seed, replay.as_deref()),
+        Some("C10") => c10::main_c10(&tier, seed, replay.as_deref()),
+        Some("C18") => c18::main_c18(&tier, seed, replay.as_deref()),
+        _ => {
+            eprintln!("usage: deltasim-inproc C11|C10|C18 quick|thorough [--replay file]");
+            2
+        }
+    };
+    std::process::exit(code);
+}
